@@ -40,7 +40,10 @@ Ev == Events[l]
 SeqRange(s) == {s[i] : i \in 1..Len(s)}
 LoggedRefs(e) == [k \in SeqRange(e.rkeys) |->
                     SeqRange(e.rvals[CHOOSE i \in 1..Len(e.rkeys) : e.rkeys[i] = k])]
-Logged(e) == St(SeqRange(e.cache), LoggedRefs(e), SeqRange(e.all), FALSE)
+\* e.snap = FALSE: no state was logged with the event (set / inject are not critical sections of the library; under
+\* the fine-grained schedules of C07 they may happen while another thread is INSIDE a critical section, whose
+\* intermediate state must not be taken for a state of the machine): the state then follows the specification.
+Snapshot(e) == St(SeqRange(e.cache), LoggedRefs(e), SeqRange(e.all), FALSE)
 
 Fresh == /\ cache = {} /\ refs = [q \in {} |-> {}] /\ allIds = {} /\ err = FALSE
          /\ phase = [p \in Pid |-> "new"]
@@ -72,6 +75,8 @@ NextPhase(e) ==
 SameState(a, b) == a.cache = b.cache /\ a.refs = b.refs /\ a.allIds = b.allIds
 
 \* clauses of event e, evaluated with the state BEFORE (unprimed) and the logged state after
+Logged(e) == IF e.snap THEN Snapshot(e) ELSE Expected(e)
+
 Clauses(e) ==
   LET x  == Expected(e)
       lg == Logged(e)
@@ -86,7 +91,7 @@ Clauses(e) ==
           [] c = "inject"     -> e.op = "inject" /\ ~e.found
           [] c = "wellformed" -> ~wf
           [] c = "residue"    -> e.op = "end" /\ (lg.cache # {} \/ DOMAIN lg.refs # {} \/ lg.allIds # {})
-          [] c = "post"       -> e.raised = "" /\ (~SameState(x, lg) \/ x.err)
+          [] c = "post"       -> e.snap /\ e.raised = "" /\ (~SameState(x, lg) \/ x.err)
           [] c = "phase"      -> ~GuardOK(e)
           [] c = "visible"    -> (e.op = "reg" /\ ~(SeqRange(e.ps) \subseteq Pid /\ VisibleAlive(SeqRange(e.ps) \cap Pid))) \/ (e.op = "inject" /\ e.found # (e.id \in cache))
           [] c = "selfref"    -> ~self}
